@@ -62,6 +62,10 @@ CHECKS = {
                 technique="deterministic simulation: real agent and environment inside the baton-scheduled exchange refined step by step against a reference bandit; agent op sequences with reseed/pickle-restart twins; non-monotone observation sequences on the environment",
                 text="Every learn (only the rewarded arm moves, by step*(reward-estimate), step 1/count or the constant rate), every reward (relative improvement, reference moves only on improvement), every policy result (valid index; argmax set when eps=0) is compared with the reference model, in the simulated exchange on the agent's own thread and in direct op sequences with twins built from the same seed or reseeded identically after different constructor seeds.",
                 note="Relative tolerance 1e-12 on estimates; loss sequences keep the reference best away from zero."),
+    "C06": dict(engine="diskcrash", category="fault_enumeration", design="4/C06",
+                technique="deterministic fault injection: recorded write trace of a real save materialised at every operation prefix and byte step on top of the previous folder, each state given to the real restore; SQLite: exception before / process death after every call and inside every array adapter",
+                text="For sampled scenarios (previous folder: empty / earlier checkpoint of the same run / checkpoint of a different run) the next real save is recorded (order of file opens, final contents, every offset/bytes/truncate the HDF5 library issues) and EVERY crash point is materialised: after each operation and every 7th byte (thorough: every byte) inside each write; restore must fail or return exactly the previous or exactly the new checkpoint (deep bitwise comparison). SQLite: an exception before each call and in each array adapter must leave the previous checkpoint loadable; process death after each call must leave old or new.",
+                note="Crash = process death (prefix of the operation sequence), not power loss; disk model validated on every run by replaying the trace and comparing all five files byte for byte; HDF5 and SQLite internals below their write calls are trusted."),
 }
 
 NOT_APPLICABLE = {
